@@ -218,6 +218,27 @@ def run_check(args, root):
         stream = prop.tasks(args.seed, args.tier)
     grace = getattr(prop, 'GRACE', 30)
     stream = ({**t, 'deadline': t0 + budget + grace} for t in stream)
+    # regression: replay the recorded histories of repaired defects first
+    import glob
+    reg_results = []
+    reg = []
+    for path in sorted(glob.glob(os.path.join(core.VERIF, 'replays',
+                                              pid + '-*.json'))):
+        if path.endswith('.orig.json'):
+            continue
+        try:
+            with open(path) as f:
+                rep = json.load(f)
+        except ValueError:
+            continue
+        reg.append(replay_task(prop, pid, rep, name='regression:' +
+                               os.path.basename(path), replay_path=path))
+    if reg:
+        reg_results = core.run_tasks(reg, 10 ** 9, args.jobs,
+                                     prop.RUN_TIMEOUT,
+                                     os.path.join(root, 'reg'),
+                                     stop_on_violation=False,
+                                     max_tasks=len(reg))
     # run in slices so that an unknown violation stops the batch early
     deadline = t0 + budget
     unknown = []
@@ -248,6 +269,14 @@ def run_check(args, root):
             break
     agg = _aggregate(results)
     rc = 0
+    reg_bad = []
+    for task, res in reg_results:
+        if res.get('error'):
+            agg['errors'].append((task.get('name'), res['error']))
+        for v in res.get('violations') or []:
+            if not core.match_known(v, known):
+                reg_bad.append((task, v))
+    agg['extra']['regression_replays'] = len(reg_results)
     if agg['errors']:
         for name, err in agg['errors'][:3]:
             print('HARNESS-ERROR in %s: %s' % (name, err.strip()[-1500:]))
@@ -256,6 +285,14 @@ def run_check(args, root):
         print('KNOWN-FINDING: property=%s %s' % (pid, k.get('what_fails',
                                                             v['message'])))
     nviol = 0
+    if reg_bad and rc == 0:
+        for task, v in reg_bad:
+            nviol += 1
+            print('VIOLATION property=%s replay=%s' % (
+                pid, task['replay_path']))
+            print('  key: %s (a repaired defect is back)' % v['key'])
+            print('  %s' % v['message'])
+        rc = 1
     if unknown and rc == 0 and os.environ.get('VERIF_KEEP_GOING'):
         keys = {}
         for task, res, v in unknown:
